@@ -29,7 +29,7 @@ ASSUMPTIONS = [
     '(days=t//86400, seconds=t%86400) is validated against the real timedelta at start-up; native replays use the real datetime',
     'wall clock (utcnow) and reactor time advance together: utcnow() == epoch + Clock.seconds()',
     'local-time field interpreted as UTC (TZ=UTC)',
-    'after every ADDRMAP line the reactor gets one turn (Clock.advance(0)) before the monitors look',
+    'after every ADDRMAP line the reactor gets one turn (Clock.advance(0)) before the monitors look (c20_same_turn: two lines share a turn)',
     'symbolic runs use an integer-time subclass of task.Clock/DelayedCall (same code, int 0 instead of float 0.0); native replays use the stock task.Clock',
 ]
 BOUNDS = {
@@ -282,3 +282,83 @@ def c20_via_state(k1: int, k2: int, k3: int, n1: int, n2: int, n3: int, v1: int,
     if nboot == 2:
         assume(n1 != n2)        # Tor lists a name once
     return _history(3, [k1, k2, k3], [n1, n2, n3], [v1, v2, v3], 1, nboot)
+
+
+def _same_turn(k1, k2, n_ip, v1, v2, v3):
+    """two ADDRMAP lines for one name arrive in the same reactor turn (one TCP chunk): no timer can run between them"""
+    sym = _mode[0] == 'symbolic'
+    clock = shims.make_int_clock() if sym else task.Clock()
+    am = addrmap.AddrMap()
+    am.scheduler = clock
+    rec = Rec()
+    am.add_listener(rec)
+    now = [0]
+    if sym:
+        shims.SymDT._table = {}
+        shims.SymDT._clock = lambda: now[0]
+        addrmap.datetime = shims.DatetimeModuleShim
+        base = None
+    else:
+        mod, base = shims.real_datetime_module(lambda: now[0])
+        addrmap.datetime = mod
+
+    def token(i, which, t):
+        if sym:
+            tk = 'T%d%s' % (i, which)
+            shims.SymDT._table[tk] = t
+            return tk
+        import datetime as real
+        return (base + real.timedelta(seconds=t)).strftime("%Y-%m-%d %H:%M:%S")
+
+    name = NAMES[0]
+    assume(-10 <= v1 <= MAX_OFF and -10 <= v2 <= MAX_OFF and 0 <= v3 <= MAX_ADV)
+    ip1, ip2 = '10.0.1.1', ('10.0.2.1' if n_ip else '10.0.1.1')
+    try:
+        am.update(_line(k1, name, ip1, token(0, 'L', v1 + 5 * 3600), token(0, 'U', v1)))
+        am.update(_line(k2, name, ip2, token(1, 'L', v2 + 5 * 3600), token(1, 'U', v2)))
+        clock.advance(0)
+    except Exception as e:
+        return 'exception-in-update: %s: %s' % (type(e).__name__, e)
+    exp2 = None if k2 in (3, 4) else v2        # the latest mapping decides
+
+    def look():
+        try:
+            return am.find(name)
+        except KeyError:
+            return None
+
+    def check(step):
+        alive = exp2 is None or now[0] < exp2
+        a = look()
+        if alive and a is None:
+            return 'lookup-fails-for-live-mapping: %s at t=%s' % (step, now[0])
+        if not alive and a is not None:
+            return 'expired-or-dropped-mapping-still-found-by-name: %s at t=%s (latest expiry %s)' % (step, now[0], exp2)
+        if alive and str(a.ip) != ip2:
+            return 'stale-address: %s has %s want %s' % (step, a.ip, ip2)
+        return ''
+    r = check('after both lines')
+    if r:
+        return r
+    now[0] = now[0] + v3
+    try:
+        clock.advance(v3)
+    except Exception as e:
+        return 'exception-in-timer: %s: %s' % (type(e).__name__, e)
+    r = check('after the advance')
+    if r:
+        return r
+    got_a = sum(1 for ev in rec.log if ev[0] == 'added')
+    got_e = sum(1 for ev in rec.log if ev[0] == 'expired')
+    expired_now = not (exp2 is None or now[0] < exp2)
+    # three-valued: the first mapping may or may not be reported as a separate added/expired pair when it was already past
+    if not ((got_a, got_e) == (1, 1 if expired_now else 0) or (v1 <= 0 and k1 in (1, 2) and (got_a, got_e) == (2, 2 if expired_now else 1))):
+        return 'listener-counts: added %d expired %d (latest mapping expired: %s)' % (got_a, got_e, expired_now)
+    reached()
+    return ''
+
+
+@cond(quick=dict(parts=[{'k1': a, 'k2': b} for a in (1, 2, 3, 4) for b in (1, 2, 3, 4)], budget=100))
+def c20_same_turn(k1: int, k2: int, n_ip: bool, v1: int, v2: int, v3: int) -> str:
+    """two lines for the same name in one reactor turn, then time passes: the latest mapping alone decides"""
+    return _same_turn(k1, k2, True if n_ip else False, v1, v2, v3)
